@@ -179,6 +179,20 @@ func replayOnce(b *built, rf *ReplayFile, path string) (*replayResult, error) {
 	}
 }
 
+// deathSummary keeps the runtime's own fatal message (first lines) and the tail of the output
+func deathSummary(s string) string {
+	var keep []string
+	for _, l := range strings.Split(s, "\n") {
+		if strings.HasPrefix(l, "fatal error") || strings.HasPrefix(l, "runtime:") || strings.HasPrefix(l, "panic:") || strings.HasPrefix(l, "SIG") {
+			keep = append(keep, l)
+			if len(keep) >= 4 {
+				break
+			}
+		}
+	}
+	return strings.Join(keep, " | ") + " || " + lastLines(s, 3)
+}
+
 func lastLines(s string, n int) string {
 	ls := strings.Split(strings.TrimRight(s, "\n"), "\n")
 	if len(ls) > n {
@@ -261,7 +275,7 @@ func runWorkers(b *built, ps *propSpec, sc subCheck, o checkOpts, outDir string,
 			}
 			if rerr != nil {
 				mu.Lock()
-				dead = append(dead, fmt.Sprintf("DIED shard=%d check=%s run=%s err=%v out=%s", i, sc.Name, readCurrent(outDir, i), err, lastLines(string(outb), 8)))
+				dead = append(dead, fmt.Sprintf("DIED shard=%d check=%s run=%s err=%v out=%s", i, sc.Name, readCurrent(outDir, i), err, deathSummary(string(outb))))
 				mu.Unlock()
 				return
 			}
@@ -395,6 +409,17 @@ func runCheck(ps *propSpec, o checkOpts) checkResult {
 		}
 		agg.perSub[sc.Name] = sub
 		for _, d := range dead {
+			if strings.HasPrefix(d, "DIED") && (strings.Contains(d, "missing stackmap") || strings.Contains(d, "untyped locals")) {
+				// the assembly under test declares a stack frame without a stack map: the Go runtime of
+				// the simulation cannot scan/grow a goroutine parked inside it.  An artefact of running
+				// kernel assembly in user space, not a property violation (the interpreted mode decides).
+				infraN++
+				if infraN <= 1 {
+					fmt.Println("VERIF-INFRA " + sc.Name + ": the compiled assembly has a stack frame without a stack map and cannot be parked by the simulation (runtime: missing stackmap); this mode is skipped for this build")
+				}
+				infra = true
+				continue
+			}
 			if strings.HasPrefix(d, "DIED") {
 				// a worker process died inside a run: that run is a candidate violation,
 				// attributable to (seed, run) from its journal, replayed below.
